@@ -210,10 +210,10 @@ impl Store {
 }
 
 /// predicted observation of a (top-level) set at `path`
-pub fn predict_set(ds: &Store, path: &[u8], universe: usize, clock: &Clock) -> Obs {
+pub fn predict_set(ds: &Store, path: &[u8], universe: &[u8], clock: &Clock) -> Obs {
     let mut o = Obs::new();
     let members = ds.set_members(path);
-    let mut all: Vec<u8> = (0..universe as u8).collect();
+    let mut all: Vec<u8> = universe.to_vec();
     for m in &members {
         if !all.contains(m) {
             all.push(*m);
@@ -230,10 +230,10 @@ pub fn predict_set(ds: &Store, path: &[u8], universe: usize, clock: &Clock) -> O
 }
 
 /// predicted observation of a top-level map whose values have `shape`
-pub fn predict_map(ds: &Store, shape: &Shape, key_universe: usize) -> Obs {
+pub fn predict_map(ds: &Store, shape: &Shape, key_universe: &[u8]) -> Obs {
     let mut o = Obs::new();
     let keys = ds.map_keys(&[]);
-    let mut all: Vec<u8> = (0..key_universe as u8).collect();
+    let mut all: Vec<u8> = key_universe.to_vec();
     for k in &keys {
         if !all.contains(k) {
             all.push(*k);
